@@ -410,6 +410,25 @@ and `Err()` is non-nil afterwards. -/
 
 def io_LimitReader (src : List UInt8) (n : Int) : List UInt8 := src.take n.toNat
 
+/-- `io.ReadAll(io.LimitReader(rd, n))` on a reader that is the bytes it will deliver: at most
+    `n` bytes are consumed and returned; such a reader ends cleanly, so the error is nil -/
+def io_ReadAllLimit (rd : List UInt8) (n : Int) : List UInt8 × Option Err × List UInt8 :=
+  (rd.take n.toNat, none, rd.drop n.toNat)
+
+/-- `unicode.IsSpace` -/
+def unicode_IsSpace (r : Int) : Bool :=
+  r == 9 || r == 10 || r == 11 || r == 12 || r == 13 || r == 32 || r == 0x85 || r == 0xA0 || r == 0x1680 ||
+  (decide (0x2000 ≤ r) && decide (r ≤ 0x200A)) || r == 0x2028 || r == 0x2029 || r == 0x202F || r == 0x205F || r == 0x3000
+
+/-- `len(bytes.TrimSpace(b)) == 0`: every rune of `b`, decoded left to right (an invalid byte is
+    U+FFFD, which is not a space), is white space. (TrimSpace trims the right end by decoding
+    backwards; a string is trimmed to nothing that way exactly when it is valid UTF-8 made of
+    spaces, so the two directions agree on emptiness — compared with Go in suite C09.) -/
+def bytes_allSpace (b : List UInt8) : Bool := (runes b).all fun p => unicode_IsSpace p.2
+
+/-- `bytes.ContainsAny(b, chars)` for an ASCII `chars` -/
+def bytes_ContainsAny (b chars : List UInt8) : Bool := b.any fun c => chars.contains c
+
 def maxScanTokenSize : Nat := 65536
 
 /-- raw lines; `cur` = the current line so far, most recent byte first -/
